@@ -70,6 +70,9 @@ def child(sc, hashseed, offset, raise_at=None):
     env = dict(os.environ)
     env["PYTHONHASHSEED"] = str(hashseed)
     env["VERIF_CLOCK_OFFSET"] = str(offset)
+    # the process's local time zone is part of "the process": the two fresh interpreters of a scenario get different ones
+    # (POSIX TZ strings, no zoneinfo database needed); nothing a simulation computes may depend on it
+    env["TZ"] = ("UTC0", "EST5", "AEST-10", "IST-5:30")[(int(hashseed) + int(offset)) % 4]
     env.pop("VERIF_RAISE_AT", None)
     if raise_at is not None:
         env["VERIF_RAISE_AT"] = str(raise_at)
